@@ -177,7 +177,7 @@ func genC01(r *rng, n int, emit func(string)) {
 				}
 				sum[hl-1] = sum[hl-1]&0xf0 | byte(off)
 				for _, d := range []int{1, 6, 8, 9, 10} {
-					emit(fmt.Sprintf("trunc %s %d", hx(sum), otp.VerifMod10()[d]))
+					emit(fmt.Sprintf("trunc %s %d", hx(sum), hkMod10()[d]))
 				}
 			}
 		}
